@@ -94,6 +94,11 @@ example : trimSpace " \t a b \n".toList = "a b".toList := by decide
 /-- the source facts are load-bearing: were `err` declared outside the loop, an earlier frame's error would stick -/
 example : respErr { Skeleton.current with respErrFreshPerFrame := false } (some "stale") "" = some "stale" := by decide
 
+/-- For closures the "accompanying value" travels back through the proxy's result conversion, which is
+    skipped only for an invalid (nil) result — never because the closure also returned an error
+    (checked against the regenerated skeleton). -/
+theorem C10_closure_value_kept_with_error : Skeleton.current.pxResultChecksValid = true := by decide
+
 end Panrpc.Wire
 
 #print axioms Panrpc.Wire.C10_message_exact
@@ -101,3 +106,4 @@ end Panrpc.Wire
 #print axioms Panrpc.Wire.C10_nil_stays_nil
 #print axioms Panrpc.Wire.C10_blank_message_arrives_nil
 #print axioms Panrpc.Wire.C10_trimSpace_spec
+#print axioms Panrpc.Wire.C10_closure_value_kept_with_error
